@@ -559,6 +559,10 @@ func (e *env) cliReplay(c Case) {
 		e.cliNamesOne(e.cliSetup(), *c.CliNames)
 		return
 	}
+	if c.CliShared != nil {
+		e.cliSharedOne(e.cliSetup(), *c.CliShared)
+		return
+	}
 	if c.Cli == nil {
 		panic("cli case without parameters")
 	}
